@@ -93,7 +93,7 @@ pub fn outside_idents_and_prelude() -> Vec<serde_json::Value> {
         json!({"id": id, "type": {"path": path, "params": [], "def": {"composite": {"fields": [f]}}, "docs": []}})
     };
     let mut v = vec![];
-    for bad in ["1abc", "type", "a-b", "", "_", "fn", "Self"] {
+    for bad in ["1abc", "type", "a-b", "", "_", "fn", "Self", "crate", "try", "self", "super"] {
         // bad field name, bad type name, bad namespace segment, bad variant name
         v.push(json!({"types": [st(0, vec!["a", "S"], Some(bad), 1), u8t(1)]}));
         v.push(json!({"types": [st(0, vec!["a", bad], Some("x"), 1), u8t(1)]}));
